@@ -67,7 +67,11 @@ def generate_graph(
     )
 
     all_modules = _append_external_modules_to_module_list(
-        all_modules, exclude_external_libraries, imports, root_path, external_exclusions
+        all_modules,
+        exclude_external_libraries,
+        [i for i in imports if not _is_internal(i.importee(), internal_module_prefix)],
+        root_path,
+        external_exclusions,
     )
     return EvaluableArchitectureGraph(NetworkxGraph(all_modules, imports, level_limit))
 
@@ -172,4 +176,10 @@ def _get_all_ast_modules(
 def _get_all_internal_modules(
     modules: list[str], internal_module_prefix: str
 ) -> set[str]:
-    return {m for m in modules if m.startswith(internal_module_prefix)}
+    return {m for m in modules if _is_internal(m, internal_module_prefix)}
+
+
+def _is_internal(module: str, internal_module_prefix: str) -> bool:
+    """A module is internal if it is the base module or one of its sub modules (whole dotted components)."""
+    base_module = internal_module_prefix.rstrip(".")
+    return module == base_module or module.startswith(base_module + ".")
